@@ -54,6 +54,7 @@ pub const KINDS: &[&str] = &[
     "cw_toward",       // 47 (a subset of the difference to a neighbouring codeword: between two codewords)
     "cw_twin",         // 48 (identical damage - same degrees, same values - in several blocks: identical syndromes)
     "snd_foreign_ec",  // 49 (EC part as a plausible non-conforming encoder writes it: valid RS words in the wrong places)
+    "mod_mimic",       // 50 (whole data rows / columns painted like the fixed pattern: solid or clock-like)
 ];
 
 pub fn kind_id(name: &str) -> u8 {
